@@ -7,16 +7,17 @@ namespace Tree
 
 /-! ### (4) `link` -/
 
-theorem link_refused {s : State} {c p : Nat} (h : ¬ gate s c p ∨ s.kids p = none) : link s c p = (s, false) := by
-  rcases link_cases s c p with ⟨e, _⟩ | ⟨ks, hg, hk, _⟩
+theorem linkB_refused {lim : Nat} {s : State} {c p : Nat} (h : ¬ gateB lim s c p ∨ s.kids p = none) :
+    linkBelow lim s c p = (s, false) := by
+  rcases linkB_cases lim s c p with ⟨e, _⟩ | ⟨ks, hg, hk, _⟩
   · exact e
   · rcases h with h | h
     · exact absurd hg h
     · rw [hk] at h; cases h
 
-theorem link_true {s : State} {c p : Nat} (h : (link s c p).2 = true) :
-    gate s c p ∧ (∃ ks, s.kids p = some ks) ∧ (link s c p).1.sup c = some p := by
-  rcases link_cases s c p with ⟨e, _⟩ | ⟨ks, hg, hk, hcase⟩
+theorem linkB_true {lim : Nat} {s : State} {c p : Nat} (h : (linkBelow lim s c p).2 = true) :
+    gateB lim s c p ∧ (∃ ks, s.kids p = some ks) ∧ (linkBelow lim s c p).1.sup c = some p := by
+  rcases linkB_cases lim s c p with ⟨e, _⟩ | ⟨ks, hg, hk, hcase⟩
   · rw [e] at h; cases h
   · refine ⟨hg, ⟨ks, hk⟩, ?_⟩
     rcases hcase with ⟨hs, e⟩ | ⟨hs, e⟩ | ⟨q, hs, hqp, e⟩
@@ -26,12 +27,12 @@ theorem link_true {s : State} {c p : Nat} (h : (link s c p).2 = true) :
 
 /-- what a single `link` can change at an actor `z` other than the child and the new supervisor:
 it can only lose a child -/
-theorem link_other {s : State} (h : Inv s) {c p z : Nat} :
-    (∀ x, child (link s c p).1 z x → x = c ∧ z = p ∨ child s z x) ∧
-    ((link s c p).1.sup z = s.sup z ∨ z = c) ∧
-    (s.kids z = none → (link s c p).1.kids z = none) ∧
-    (link s c p).1.status = s.status ∧ (link s c p).1.killed = s.killed ∧ (link s c p).1.n = s.n := by
-  rcases link_cases s c p with ⟨e, _⟩ | ⟨ks, hg, hk, hcase⟩
+theorem linkB_other {lim : Nat} {s : State} (h : Inv s) {c p z : Nat} :
+    (∀ x, child (linkBelow lim s c p).1 z x → x = c ∧ z = p ∨ child s z x) ∧
+    ((linkBelow lim s c p).1.sup z = s.sup z ∨ z = c) ∧
+    (s.kids z = none → (linkBelow lim s c p).1.kids z = none) ∧
+    (linkBelow lim s c p).1.status = s.status ∧ (linkBelow lim s c p).1.killed = s.killed ∧ (linkBelow lim s c p).1.n = s.n := by
+  rcases linkB_cases lim s c p with ⟨e, _⟩ | ⟨ks, hg, hk, hcase⟩
   · rw [e]; exact ⟨fun x hx => .inr hx, .inl rfl, id, by trivial, by trivial, by trivial⟩
   · have hchild_p : ∀ x, x ∈ ins c ks → x = c ∨ child s p x := fun x hx => by
       rcases mem_ins.mp hx with e | hm
@@ -91,10 +92,33 @@ theorem link_other {s : State} (h : Inv s) {c p z : Nat} :
           · next e => subst e; rw [hk] at hz; cases hz
           · exact hz
 
-theorem link_other_n (s : State) (c p : Nat) : (link s c p).1.n = s.n := by
-  rcases link_cases s c p with ⟨e, _⟩ | ⟨ks, _, _, hcase⟩
+theorem linkB_other_n (lim : Nat) (s : State) (c p : Nat) : (linkBelow lim s c p).1.n = s.n := by
+  rcases linkB_cases lim s c p with ⟨e, _⟩ | ⟨ks, _, _, hcase⟩
   · rw [e]
   · rcases hcase with ⟨_, e⟩ | ⟨_, e⟩ | ⟨q, _, _, e⟩ <;> rw [e]
+
+theorem link_refused {s : State} {c p : Nat} (h : ¬ gate s c p ∨ s.kids p = none) : link s c p = (s, false) :=
+  linkB_refused h
+
+theorem link_true {s : State} {c p : Nat} (h : (link s c p).2 = true) :
+    gate s c p ∧ (∃ ks, s.kids p = some ks) ∧ (link s c p).1.sup c = some p := linkB_true h
+
+theorem link_other {s : State} (h : Inv s) {c p z : Nat} :
+    (∀ x, child (link s c p).1 z x → x = c ∧ z = p ∨ child s z x) ∧
+    ((link s c p).1.sup z = s.sup z ∨ z = c) ∧
+    (s.kids z = none → (link s c p).1.kids z = none) ∧
+    (link s c p).1.status = s.status ∧ (link s c p).1.killed = s.killed ∧ (link s c p).1.n = s.n :=
+  linkB_other h
+
+theorem link_other_n (s : State) (c p : Nat) : (link s c p).1.n = s.n := linkB_other_n _ s c p
+
+/-- below `Draining` the link `start` makes and the public `link` are the same function -/
+theorem linkStart_eq_link {s : State} {c p : Nat} (h : (s.status c).toNat < Status.draining.toNat) :
+    linkStart s c p = link s c p := by
+  unfold linkStart link linkBelow
+  have e1 : ¬ Status.stopping.toNat ≤ (s.status c).toNat := by simp only [Status.toNat] at h ⊢; omega
+  have e2 : ¬ Status.draining.toNat ≤ (s.status c).toNat := by simp only [Status.toNat] at h ⊢; omega
+  simp only [e1, e2]
 
 /-! ### monotonicity of the worklist -/
 
@@ -249,7 +273,37 @@ theorem closed_step (fixed : Bool) {s : State} (h : Inv s) (op : Op) (z : Nat) (
     · rw [hz] at e; cases e
   | setStatus a st => simp only [Tree.step]; split <;> exact hz
 
-/-- (4) an actor that is draining, stopping or stopped never gains a child or a supervisor -/
+/-- the gate of `link_below` seen from a third actor `z` that is at least `Draining`: `z` gains no child;
+`z` gains no supervisor if it is the child and at or above the child limit (or not the child at all) -/
+theorem linkB_no_gain {lim : Nat} {s : State} (h : Inv s) (c p z : Nat)
+    (hz : Status.draining.toNat ≤ (s.status z).toNat) :
+    (∀ x, child (linkBelow lim s c p).1 z x → child s z x) ∧
+    ((lim ≤ (s.status z).toNat ∨ z ≠ c) → ∀ q, (linkBelow lim s c p).1.sup z = some q → s.sup z = some q) := by
+  obtain ⟨h1, h2, _⟩ := linkB_other (lim := lim) h (c := c) (p := p) (z := z)
+  have hngp : z = p → linkBelow lim s c p = (s, false) := by
+    intro e
+    apply linkB_refused; left
+    unfold gateB
+    subst e; simp only [Status.toNat] at hz ⊢; omega
+  have hngc : z = c → lim ≤ (s.status z).toNat → linkBelow lim s c p = (s, false) := by
+    intro e hl
+    apply linkB_refused; left
+    unfold gateB
+    subst e; omega
+  refine ⟨fun x hx => ?_, fun hcond q hq => ?_⟩
+  · by_cases e : z = p
+    · rw [hngp e] at hx; exact hx
+    · rcases h1 x hx with ⟨_, e'⟩ | e'
+      · exact absurd e' e
+      · exact e'
+  · rcases h2 with e' | e'
+    · rw [← e']; exact hq
+    · rcases hcond with hl | hne
+      · rw [hngc e' hl] at hq; exact hq
+      · exact absurd e' hne
+
+/-- (4) an actor that is draining, stopping or stopped never gains a child or a supervisor (the operations
+of `Op`: the public `link`; for the link `start` makes see `linkB_no_gain` / `C05.start_link_no_gain`) -/
 theorem no_gain_step (fixed : Bool) {s : State} (h : Inv s) (op : Op) (z : Nat)
     (hz : Status.draining.toNat ≤ (s.status z).toNat) :
     (∀ x, child (step fixed s op) z x → child s z x) ∧
@@ -257,21 +311,8 @@ theorem no_gain_step (fixed : Bool) {s : State} (h : Inv s) (op : Op) (z : Nat)
   cases op with
   | spawn => exact ⟨fun _ hx => hx, fun _ hq => hq⟩
   | link c p =>
-    obtain ⟨h1, h2, _⟩ := link_other h (c := c) (p := p) (z := z)
-    have hng : (z = p ∨ z = c) → link s c p = (s, false) := by
-      intro e
-      apply link_refused; left
-      unfold gate
-      rcases e with e | e <;> subst e <;> simp only [Status.toNat] at hz ⊢ <;> omega
-    by_cases e : z = p ∨ z = c
-    · simp only [Tree.step, hng e]; exact ⟨fun _ hx => hx, fun _ hq => hq⟩
-    · refine ⟨fun x hx => ?_, fun q hq => ?_⟩
-      · rcases h1 x hx with ⟨_, e'⟩ | e'
-        · exact absurd (.inl e') e
-        · exact e'
-      · rcases h2 with e' | e'
-        · simp only [Tree.step] at hq; rw [← e']; exact hq
-        · exact absurd (.inr e') e
+    obtain ⟨a, b⟩ := linkB_no_gain (lim := Status.draining.toNat) h c p z hz
+    exact ⟨a, b (.inl hz)⟩
   | unlink c p =>
     refine ⟨?_, ?_⟩
     · rintro x ⟨ks', hk', hx⟩
